@@ -284,6 +284,10 @@ fn install_global_panic_record() {
             "?".to_string()
         };
         let loc = info.location().map(|l| format!("{}:{}", l.file(), l.line())).unwrap_or_default();
+        if std::env::var("VERIF_BT").is_ok() {
+            // triage aid only: where inside the library a panic of a dependency crate came from
+            eprintln!("PANIC {} at {}\n{}", msg, loc, std::backtrace::Backtrace::force_capture());
+        }
         if let Ok(mut g) = ANY_PANIC.lock() {
             if g.is_none() {
                 *g = Some((msg, loc));
